@@ -293,8 +293,8 @@ Definition render (its : list item) : list imp :=
 
 (* Python's sorted() on (obj, alias) pairs compares None with str when one object is imported both
    plain and aliased from the same module; `from __future__` items would be placed before the block.
-   `import m as a` items go through a dict keyed by module (the last alias wins).
-   All are outside the modelled domain (MonkeyType's stubs import only `from m import a, b`). *)
+   `import m as a` items go through a dict keyed by module (the last alias wins), so two aliases of one module are
+   excluded.  All are outside the modelled domain (MonkeyType's stubs import only `from m import a, b`). *)
 Fixpoint dup_fst (l : list name) : bool :=
   match l with
   | [] => false
@@ -304,7 +304,13 @@ Definition in_domain (its : list item) : bool :=
   forallb (fun it => negb (String.eqb (i_mod it) "__future__")
                      && negb (dup_fst (from_names (i_mod it) its))
                      && negb (is_rel (i_mod it))
-                     && match i_obj it, i_alias it with None, Some _ => false | _, _ => true end) its.
+                     && match i_obj it, i_alias it with
+                        | None, Some a =>
+                            (* `import m as a`: one alias per module *)
+                            forallb (fun y => match i_obj y, i_alias y with
+                                              | None, Some b => negb (String.eqb (i_mod y) (i_mod it)) || String.eqb a b
+                                              | _, _ => true end) its
+                        | _, _ => true end) its.
 
 (* ---------------------------------------------------------------- _add_if_type_checking_block / _split_module *)
 Definition is_simp (s : stmt) : bool := match s with SImp _ => true | _ => false end.
